@@ -423,16 +423,33 @@ Varable failures: {var_failed}
         outf.updatemeta()
         return outf
 
-    def stack(self, *args, **kwds):
+    def stack(self, other, stackdim):
         """
         Wrapper on PseudoNetCDFFile.stack that updates VAR-LIST,
-        NVARS, VAR, and TFLAG
+        NVARS, VAR, and TFLAG; when stacking layers, the level edges
+        (VGLVLS) of the files are joined
 
         See also
         --------
         see PseudoNetCDFFile.stack
         """
-        outf = PseudoNetCDFFile.stack(self, *args, **kwds)
+        outf = PseudoNetCDFFile.stack(self, other, stackdim)
+        if stackdim == 'LAY' and hasattr(self, 'VGLVLS'):
+            from collections.abc import Iterable
+            if isinstance(other, Iterable):
+                others = list(other)
+            else:
+                others = [other]
+            try:
+                vglvls = np.asarray(self.VGLVLS)
+                for otherf in others:
+                    ovglvls = np.asarray(otherf.VGLVLS)
+                    if vglvls[-1] != ovglvls[0]:
+                        raise ValueError('level edges do not abut')
+                    vglvls = np.append(vglvls, ovglvls[1:])
+                outf.VGLVLS = vglvls
+            except Exception:
+                warn('VGLVLS could not be diagnosed; update manually')
         outf.updatemeta()
         return outf
 
